@@ -98,44 +98,49 @@ Fixpoint calls_of (evs : list ev) : list call :=
   match evs with
   | [] => []
   | ECall c k o :: r => (c, k, o) :: calls_of r
-  | EFill c k0 n v0 sz :: r =>
+  | EFill _ c k0 n v0 sz :: r =>
       map (fun i => (c, (k0 + i)%nat, OVal (v0 + Z.of_nat i) sz)) (seq 0 n) ++ calls_of r
   | _ :: r => calls_of r
   end.
 
-Fixpoint in_loader_from (l : list (Z * Z)) (i : nat) : list nat :=
+(* seen: one flag per goroutine = its loader was invoked (it was observed inside its loader, or it belongs
+   to a fill of fresh keys); positionally aligned with the status list *)
+Fixpoint mark_seen (seen : list bool) (l : list (Z * Z)) : list bool :=
   match l with
   | [] => []
-  | x :: r => if fst x =? 10 then i :: in_loader_from r (S i) else in_loader_from r (S i)
+  | x :: r => (match seen with b :: _ => b | [] => false end || (fst x =? 10)) :: mark_seen (tl seen) r
+  end.
+
+(* some call for cache c, key k whose loader was invoked produces v *)
+Fixpoint produced_by (cl : list call) (seen : list bool) (c k : nat) (v : Z) : bool :=
+  match cl, seen with
+  | (c', k', OVal v' _) :: cr, true :: sr => (Nat.eqb c' c && Nat.eqb k' k && (v' =? v)) || produced_by cr sr c k v
+  | _ :: cr, _ :: sr => produced_by cr sr c k v
+  | _, _ => false
   end.
 
 (* coherence of one goroutine's visible status: a returned value is the value that a loader which was
    actually invoked (seen) produced for the same cache and key (its own one if its loader ran); an
    error/panic only comes out of the goroutine whose own loader produced it *)
-Definition thr_ok (cl : list call) (seen : list nat) (t : nat) (x : Z * Z) : bool :=
-  match nth_error cl t with
-  | None => false
-  | Some (c, k, o) =>
-      let code := fst x in
-      if code =? 0 then
-        (if memb t seen
-         then match o with OVal v _ => v =? snd x | _ => false end
-         else existsb (fun t' => match nth_error cl t' with
-                                 | Some (c', k', OVal v' _) => Nat.eqb c' c && Nat.eqb k' k && (v' =? snd x)
-                                 | _ => false
-                                 end) seen)
-      else if code =? 1 then memb t seen && match o with OErr => true | _ => false end
-      else if code =? 2 then memb t seen && match o with OPanic => true | _ => false end
-      else if code =? 10 then true
-      else if code =? 11 then true
-      else if code =? 12 then memb t seen && match o with OVal _ _ => true | _ => false end
-      else false
-  end.
+Definition thr_ok (cl : list call) (seen : list bool) (cc : call) (mine : bool) (x : Z * Z) : bool :=
+  let '(c, k, o) := cc in
+  let code := fst x in
+  if code =? 0 then
+    (if mine
+     then match o with OVal v _ => v =? snd x | _ => false end
+     else produced_by cl seen c k (snd x))
+  else if code =? 1 then mine && match o with OErr => true | _ => false end
+  else if code =? 2 then mine && match o with OPanic => true | _ => false end
+  else if code =? 10 then true
+  else if code =? 11 then true
+  else if code =? 12 then mine && match o with OVal _ _ => true | _ => false end
+  else false.
 
-Fixpoint thrs_ok (cl : list call) (seen : list nat) (t : nat) (l : list (Z * Z)) : bool :=
-  match l with
-  | [] => true
-  | x :: r => thr_ok cl seen t x && thrs_ok cl seen (S t) r
+Fixpoint thrs_ok (cl_all : list call) (seen_all : list bool) (cl : list call) (seen : list bool) (l : list (Z * Z)) : bool :=
+  match l, cl, seen with
+  | [], _, _ => true
+  | x :: r, cc :: cr, b :: sr => thr_ok cl_all seen_all cc b x && thrs_ok cl_all seen_all cr sr r
+  | _, _, _ => false
   end.
 
 Fixpoint nodupb (l : list nat) : bool :=
@@ -145,17 +150,17 @@ Fixpoint nodupb (l : list nat) : bool :=
   end.
 
 Fixpoint spec_run (strict : bool) (lim : Z) (cl : list call) (evs : list ev) (impl : list obs)
-                  (ncache ncall : nat) (rel seen : list nat) : bool :=
+                  (ncache ncall : nat) (rel : list nat) (seen : list bool) : bool :=
   match evs, impl with
   | [], [] => true
   | e :: er, o :: ir =>
       let ncache' := match e with ENew | ERelBucketsNew => S ncache | _ => ncache end in
-      let ncall' := match e with ECall _ _ _ => S ncall | EFill _ _ n _ _ => (ncall + n)%nat | _ => ncall end in
+      let ncall' := match e with ECall _ _ _ => S ncall | EFill _ _ _ n _ _ => (ncall + n)%nat | _ => ncall end in
       let rel' := match e with ERelease c => c :: rel | _ => rel end in
       (* the loaders of a fill all run (fresh keys; the harness checks it) *)
-      let seen' := seen ++ match e with EFill _ _ n _ _ => seq ncall n | _ => [] end ++ in_loader_from (o_thr o) 0%nat in
+      let seen' := mark_seen (seen ++ match e with EFill fresh _ _ n _ _ => repeat fresh n | _ => [] end) (o_thr o) in
       (* coherence *)
-      Nat.eqb (length (o_thr o)) ncall' && thrs_ok cl seen' 0%nat (o_thr o) &&
+      Nat.eqb (length (o_thr o)) ncall' && thrs_ok cl seen' cl seen' (o_thr o) &&
       (* accounting: the size the cleaner accounts = sum of live entries (also while savers are parked at
          the schedule point after save's unlock, and while creators are inside their loaders) *)
       (negb strict || (o_acct o =? o_live o)) &&
